@@ -34,6 +34,9 @@ impl<const N: usize> Rng for System<N> {
 		let mut index = self.index as usize;
 		// Generate a new block if there are no more random words
 		if index >= N {
+			// Invalidate the block first: if the entropy source fails (panics) the partially
+			// written block must never be served by a later call
+			self.index = !0;
 			getentropy(&mut self.random);
 			index = 0;
 		}
@@ -46,6 +49,9 @@ impl<const N: usize> Rng for System<N> {
 		let mut index = self.index as usize;
 		// Generate a new block if there are less than two random words
 		if index >= N - 1 {
+			// Invalidate the block first: if the entropy source fails (panics) the partially
+			// written block must never be served by a later call
+			self.index = !0;
 			getentropy(&mut self.random);
 			index = 0;
 		}
